@@ -157,6 +157,9 @@ def check(run, model, tier):
     for n in walk_shallow(mi.node):
         if isinstance(n, ast.Call) and isinstance(n.func, ast.Name) and n.func.id == 'setattr' and len(n.args) == 3:
             ctor = n.args[2]
+            if isinstance(ctor, ast.Name):
+                ds_ = [d for d in local_defs(mi.node).get(ctor.id, []) if not isinstance(d, tuple)]
+                ctor = ds_[0] if len(ds_) == 1 else ctor
             if isinstance(ctor, ast.Call) and norm(ctor.func).endswith('ThreadSafeAttribute'):
                 found += 1
                 init0 = None
